@@ -493,3 +493,100 @@ func checkAlignFree(p *Program, r *Report) {
 		r.ok("ALIGN-FREE", "read API / the reader does not assume block alignment", fmt.Sprintf("no remainder by a non-constant divisor in %d reachable functions (detector control: 1 of 1)", len(reach)))
 	}
 }
+
+// OBJ-LIST-WHOLE: an object-index record written by the writer carries either
+// the complete list of ref-block positions collected for the object or no list
+// at all (the format's "not listed: scan" convention).  A partial list is
+// malformed - readers trust a non-empty list to be complete - so every value
+// stored into the position field of an object record on the writer side must
+// be the map value collected for the key, unchanged, or nil.
+func checkObjListWhole(p *Program, r *Report) {
+	objT := p.namedType("objRecord")
+	ost, _ := objT.Underlying().(*types.Struct)
+	fieldIdx := -1
+	for i := 0; ost != nil && i < ost.NumFields(); i++ {
+		if sl, ok := ost.Field(i).Type().Underlying().(*types.Slice); ok {
+			if b, ok := sl.Elem().Underlying().(*types.Basic); ok && b.Kind() == types.Uint64 {
+				fieldIdx = i
+			}
+		}
+	}
+	if fieldIdx < 0 {
+		fatalf("unresolved anchor: position list field ([]uint64) of objRecord")
+	}
+	cg := buildCallGraph(p)
+	var roots []*ssa.Function
+	for _, f := range p.Funcs {
+		if recv := f.Signature.Recv(); recv != nil && f.Parent() == nil && f.Object() != nil && f.Object().Exported() {
+			if pt, ok := recv.Type().(*types.Pointer); ok {
+				if n, ok := pt.Elem().(*types.Named); ok && n.Obj().Name() == "Writer" {
+					roots = append(roots, f)
+				}
+			}
+		}
+	}
+	reach := cg.reachable(roots)
+	var fns []*ssa.Function
+	for f := range reach {
+		fns = append(fns, f)
+	}
+	sort.Slice(fns, func(i, j int) bool { return funcKey(fns[i]) < funcKey(fns[j]) })
+	whole := func(v ssa.Value) bool {
+		seen := map[ssa.Value]bool{}
+		var ok func(v ssa.Value) bool
+		ok = func(v ssa.Value) bool {
+			if seen[v] {
+				return true
+			}
+			seen[v] = true
+			switch x := v.(type) {
+			case *ssa.Const:
+				return x.Value == nil
+			case *ssa.Lookup:
+				_, isMap := x.X.Type().Underlying().(*types.Map)
+				return isMap
+			case *ssa.Extract:
+				if lk, isLk := x.Tuple.(*ssa.Lookup); isLk && x.Index == 0 {
+					_, isMap := lk.X.Type().Underlying().(*types.Map)
+					return isMap
+				}
+			case *ssa.Phi:
+				for _, e := range x.Edges {
+					if !ok(e) {
+						return false
+					}
+				}
+				return true
+			}
+			return false
+		}
+		return ok(v)
+	}
+	n := 0
+	for _, f := range fns {
+		for _, b := range f.Blocks {
+			for _, ins := range b.Instrs {
+				st, isSt := ins.(*ssa.Store)
+				if !isSt {
+					continue
+				}
+				fa, isFA := st.Addr.(*ssa.FieldAddr)
+				if !isFA || fa.Field != fieldIdx {
+					continue
+				}
+				pt, isP := fa.X.Type().Underlying().(*types.Pointer)
+				if !isP || !types.Identical(pt.Elem(), objT) {
+					continue
+				}
+				n++
+				key := funcKey(f) + " / position list written whole or not at all"
+				if whole(st.Val) {
+					r.ok("OBJ-LIST-WHOLE", key, "the stored list is the collected map value or nil")
+				} else {
+					r.violate("OBJ-LIST-WHOLE", key, p.pos(st.Pos()), "an object record is given a position list that is neither the complete list collected for the object nor nil: a shortened list is read as complete, so RefsFor loses the refs in the omitted blocks", nil)
+				}
+			}
+		}
+	}
+	r.floor("OBJ-LIST-WHOLE", n, 2, "stores to the position list of an object record on the writer side")
+}
